@@ -88,8 +88,9 @@ class Executor(CallMixin, EvalMixin, ExprMixin, StmtMixin):
             tys = []
             for a in node.args[:-1]:
                 tname = ast.unparse(a)
-                if tname not in self.spec_types: raise VCError("unknown type %s in quantifier" % tname)
-                tys.append(self.spec_types[tname])
+                ty_ = self.spec_types.get(tname) or R.SPEC_TYPES.get(tname)
+                if ty_ is None: raise VCError("unknown type %s in quantifier" % tname)
+                tys.append(ty_)
             names = [a.arg for a in lam.args.args]
             if len(names) != len(tys): raise VCError("quantifier arity")
             s = st.fork(); s.env = dict(st.env)
@@ -102,7 +103,12 @@ class Executor(CallMixin, EvalMixin, ExprMixin, StmtMixin):
             s2, body = outs[0]
             extra = s2.pc[len(st.pc):]
             b = self.truth(body)
-            if extra: b = z3.And(extra + [b]) if name == "exists" else z3.Implies(z3.And(extra), b)
+            if extra:
+                # facts instantiated while evaluating the body (well-formedness of values read from the heap) hold for
+                # every value of the bound variables: they are background assumptions, not part of the quantified claim
+                txt = " ".join(str(e) for e in extra)
+                if "rfind!" in txt or "strip!" in txt: raise VCError("rfind/strip inside a quantifier body")
+                st.assume(z3.ForAll(bound, z3.And(extra)))
             q = z3.ForAll(bound, b) if name == "forall" else z3.Exists(bound, b)
             yield st, SV(T.Bool, q)
             return
@@ -133,6 +139,29 @@ class Executor(CallMixin, EvalMixin, ExprMixin, StmtMixin):
             d = a[0]
             if isinstance(d.ty, T.Opt): d = SV(d.ty.t, T.opt_val(d.ty, d.t))
             return SV(T.Set(d.ty.k), T.dict_dom(d.ty, d.t))
+        if name == "same_except":
+            d1, d2 = a[0], a[1]
+            kk = z3.Const("k!se%d" % (id(node) % 9973), T.sort_of(d1.ty.k))
+            excl = [kk != self.coerce(x, d1.ty.k).t for x in a[2:]]
+            if isinstance(d1.ty, T.Set):
+                return SV(T.Bool, z3.ForAll([kk], z3.Implies(z3.And(excl), z3.Select(d1.t, kk) == z3.Select(d2.t, kk))))
+            return SV(T.Bool, z3.ForAll([kk], z3.Implies(z3.And(excl), z3.And(
+                z3.Select(T.dict_dom(d1.ty, d1.t), kk) == z3.Select(T.dict_dom(d2.ty, d2.t), kk),
+                z3.Select(T.dict_map(d1.ty, d1.t), kk) == z3.Select(T.dict_map(d2.ty, d2.t), kk)))))
+        if name == "list_eq":
+            l1, l2 = a[0], a[1]; ty = l1.ty
+            i = z3.Int("i!le%d" % (id(node) % 9973))
+            return SV(T.Bool, z3.And(T.list_len(ty, l1.t) == T.list_len(ty, l2.t),
+                      z3.ForAll([i], z3.Implies(z3.And(i >= 0, i < T.list_len(ty, l1.t)), T.list_arr(ty, l1.t)[i] == T.list_arr(ty, l2.t)[i]))))
+        if name == "is_append":
+            l1, l2 = a[0], a[1]; ty = l1.ty; x = self.coerce(a[2], ty.t)
+            i = z3.Int("i!ia%d" % (id(node) % 9973)); n = T.list_len(ty, l2.t)
+            return SV(T.Bool, z3.And(T.list_len(ty, l1.t) == n + 1, T.list_arr(ty, l1.t)[n] == x.t,
+                      z3.ForAll([i], z3.Implies(z3.And(i >= 0, i < n), T.list_arr(ty, l1.t)[i] == T.list_arr(ty, l2.t)[i]))))
+        if name == "is_empty_list":
+            return SV(T.Bool, T.list_len(a[0].ty, a[0].t) == 0)
+        if name == "unboxed":
+            return self.unbox(st, a[0])
         if name == "ext_const":
             ty, cst = R.EXTCONSTS[a[0].t.as_string()]; return SV(ty, cst)
         if name == "bn":
@@ -194,6 +223,18 @@ class Executor(CallMixin, EvalMixin, ExprMixin, StmtMixin):
             selfv = SV(sty, fresh("self", sty), cls=c.ghost.get("self_class"))
             st.alloc = fresh("alloc0", T.Int); st.assume(st.alloc >= 1)
             self.assume_wf(st, selfv)
+            if isinstance(sty, T.Obj) and R.SCHEMAS[sty.family].classes:
+                # dynamic class of self: a class of the family that inherits this method
+                sch = R.SCHEMAS[sty.family]; here = "%s:%s" % (module, cls)
+                tag = self.hread(st, sty.family, "__class__", selfv.t)
+                ok = []
+                for i, cq in enumerate(sch.classes):
+                    if cq.startswith("ext:"): continue
+                    chain = ["%s:%s" % (m_, n_.name) for m_, n_ in X.mro(*cq.split(":"))]
+                    if here in chain:
+                        mm = X.find_method(*cq.split(":"), fnode.name) or X.find_property(*cq.split(":"), fnode.name)
+                        if mm is not None and "%s:%s" % (mm[0], mm[1]) == here: ok.append(tag == i)
+                if ok: st.assume(z3.Or(ok))
             st.env["self"] = selfv
             self.current_inputs["self"] = selfv
         else:
